@@ -182,7 +182,9 @@ def guard_count(fn, block):
     for sb, blk in enumerate(fn.blocks):
         if blk["t"]["k"] != "switch" or sb == block or not cfg.dominates(sb, block):
             continue
-        if any(block not in cfg.reachable_from(s) for s in cfg.succ[sb]):
+        # (the `otherwise -> unreachable` successor of an exhaustive enum match is no decision)
+        live = [s for s in cfg.succ[sb] if fn.blocks[s]["t"]["k"] != "unreachable"]
+        if any(block not in cfg.reachable_from(s) for s in live):
             n += 1
     return n
 
